@@ -242,11 +242,9 @@ func (c *c04Oracle) Check(w *World, o *Obs) []Violation {
 		case "fail":
 			gap := now.Sub(ref.last)
 			switch {
-			case ref.lastKnown && gap == W:
-				// the statement says "longer than": a pause exactly equal to
-				// the window is left to the implementation
-				ambiguous[at.pid] = true
 			case !ref.lastKnown || gap > W:
+				// only a pause longer than the window restarts the count; a
+				// pause exactly equal to it does not
 				ref.count = 1
 			default:
 				ref.count++
